@@ -65,7 +65,10 @@ class Synth:
 
     def rows(self, X):
         X = np.asarray(X, dtype=float)
-        base = X @ self.w[:X.shape[1]]
+        # row by row in a fixed order (a BLAS product sums a 1-row and an n-row table differently in the last bit - enough to flip a
+        # thresholded or rounded output and make this test function, not the wrapper, row-dependent)
+        w = [float(v) for v in self.w[:X.shape[1]]]
+        base = np.array([math.fsum(w[j] * float(row[j]) for j in range(len(w))) for row in X], dtype=float)
         if self.dtype is np.bool_:
             return base, (lambda v: (v > 0))
         if self.dtype in (np.int64, np.int32):
